@@ -51,7 +51,21 @@ def _vector(rng, seqs_hint):
     return es
 
 
+def _exhaustive(max_len):
+    """every history of up to max_len events over a small alphabet chosen to hit each branch of the handler:
+    newer / older / unknown-node / over-claiming / two-entry vectors, publish, timer"""
+    import itertools
+    alphabet = [['r', [['/n1', 2]]], ['r', [['/n1', 1]]], ['r', [['/n2', 1], ['/n1', 3]]], ['r', [['/n0', 9]]],
+                ['r', [['/n1', 1], ['/n0', 1]]], ['p'], ['t']]
+    for n in range(1, max_len + 1):
+        for evs in itertools.product(alphabet, repeat=n):
+            yield {'seq0': 1, 'events': [list(e) for e in evs]}
+
+
 def cases(rng, tier):
+    if tier == 'thorough':
+        # exhaustive small scope first (7 + 49 + 343 + 2401 + 16807 histories), then the random stream
+        yield from _exhaustive(5)
     n = 400 if tier == 'quick' else 12000
     for _ in range(n):
         seq0 = rng.choice([0, 0, 1, 3, 7])
